@@ -125,6 +125,7 @@ def declare2(S: Spec):
          loops={0: dict(idx="k", inv=[
              "all(new_pipelines[j]._runtime_status is not None and new_pipelines[j]._runtime_status.arrival_tick == tick_number for j in range(0, k))",
              "all(Arriving(new_pipelines[j]) for j in range(k, len(new_pipelines)))",
+             "all(new_pipelines[j]._runtime_status is old(new_pipelines[j]._runtime_status) for j in range(k, len(new_pipelines)))",
              "pipeline_arrivals_by_priority[Priority.QUERY] == at_entry(pipeline_arrivals_by_priority[Priority.QUERY]) + Sum(take(seq(new_pipelines), k), 'isQuery')",
              "pipeline_arrivals_by_priority[Priority.INTERACTIVE] == at_entry(pipeline_arrivals_by_priority[Priority.INTERACTIVE]) + Sum(take(seq(new_pipelines), k), 'isInteractive')",
              "pipeline_arrivals_by_priority[Priority.BATCH_PIPELINE] == at_entry(pipeline_arrivals_by_priority[Priority.BATCH_PIPELINE]) + Sum(take(seq(new_pipelines), k), 'isBatch')",
